@@ -46,7 +46,8 @@ NsRels == {"same", "extended", "truncated", "other_method", "method_prefix_only"
 Encodings == {"canonical", "whitespace", "member_order", "padded", "trailing_bits", "tampered_char",
               "not_base64url", "other_request", "update_request", "empty", "typeless"}
 Decided(p) == ~(p.enc = "typeless" /\ p.ns = "same" /\ p.sfx = "matching" /\ p.form = "long")
-SuffixRels == {"matching", "other", "empty", "prefixed", "suffixed", "doubled"}
+\* (other_algorithm: the hash of the same suffix data under a hash algorithm that the handler's protocol does not list)
+SuffixRels == {"matching", "other", "empty", "prefixed", "suffixed", "doubled", "other_algorithm"}
 Forms == {"long", "short"}
 
 
